@@ -25,6 +25,7 @@ package limit
 //@   props C18
 //@   requires b != nil && bucketInv(b)
 //@   ensures [inv] bucketInv(b)
+//@   ensures [no-capacity-admits-nothing] b.capacity < 1 ==> !ok && dom(b.index) == old(dom(b.index)) && len(b.items) == old(len(b.items))
 //@   ensures [resend-accepted] old(value in b.index) ==> ok && dom(b.index) == old(dom(b.index)) && b.index[value].priority == priority
 //@   ensures [room] b.capacity >= 1 && !old(value in b.index) && old(len(b.items)) < b.capacity ==> ok && dom(b.index) == setadd(old(dom(b.index)), value)
 //@   ensures [full] b.capacity >= 1 && !old(value in b.index) && old(len(b.items)) >= b.capacity
